@@ -50,8 +50,8 @@ CLAIMED = {
    text="Partial claim (field-level conversions): wire round trip SetWireInfo -> ToWire -> ReadWireInfo on a node knowing the parents, Index/Timestamp symbolic over all of int/int64, symbolic payload bytes, nil / empty / 1..2 transactions, internal transactions and block signatures, all parent combinations: every body field equal INCLUDING nil-ness, same hash. Database form MarshalDB/UnmarshalDB: every private field the store relies on survives, same wire form after reload (json modelled as a faithful round trip of exported fields).",
    note="NOT covered (stated): the JSON / ugorji encodings themselves (nil-vs-empty through the real codecs, canonical map order, frame hash independence): reflection-driven, not executable by the engine."+COMMON_NOTE, design="6/C15"),
  "C03": dict(
-   text="Partial claim: (1) the memo wrappers (stronglySee / ancestor / selfAncestor) return what the underlying functions compute from symbolic coordinates after interleaved earlier calls with swapped arguments and another validator set (the cache key distinguishes both); (2) initEventCoordinates: child's last ancestors = pointwise maximum of the parents' (symbolic values, all presence cases, n = 2..3), own entry = own index; a first descendant once set is never overwritten (real inserts); (3) iteration-order independence: the strongly-see, round, fame-vote, witnesses-decided and frame-timestamp kernels are re-run under all map iteration orders of up to 3 entries (thorough: 4) against order-free references.",
-   note="NOT decided (stated): insertion-order and batching independence over whole DAGs, store type and cache size (Badger, eviction), canonical frame encoding (ugorji codec) - whole-history or reflection-driven, outside the engine's reach."+COMMON_NOTE, design="6/C03"),
+   text="Partial claim: (1) the memo wrappers (stronglySee / ancestor / selfAncestor) return what the underlying functions compute from symbolic coordinates after interleaved earlier calls with swapped arguments and another validator set (the cache key distinguishes both); (2) initEventCoordinates: child's last ancestors = pointwise maximum of the parents' (symbolic values, all presence cases, n = 2..3), own entry = own index; a first descendant once set is never overwritten (real inserts); (3) iteration-order independence: the strongly-see, round, fame-vote, witnesses-decided and frame-timestamp kernels are re-run under all map iteration orders of up to 3 entries (thorough: 4) against order-free references; (4) batching independence on a family of four fixed 8-event DAGs over three creators: for ALL 2^8 schedules of consensus passes (symbolic schedule bits) rounds, witness flags and delivered blocks equal those of one pass per insert - this fails for one DAG on the unchanged tree and is a recorded known finding.",
+   note="NOT decided (stated): insertion-order independence and batching independence beyond the four-DAG family, store type and cache size (Badger, eviction), canonical frame encoding (ugorji codec) - whole-history or reflection-driven, outside the engine's reach."+COMMON_NOTE, design="6/C03"),
 }
 for k in CLAIMED: CLAIMED[k]["technique"]=T
 NA = {
